@@ -18,11 +18,13 @@ IsValueNode(v) == v.k \notin {"t", "a"} \/ v.sp # NoSpan
 ScalarKind(v) == CASE v.k = "s" -> "string" [] v.k = "i" -> "integer" [] v.k = "f" -> "float" [] v.k = "b" -> "boolean" [] v.k = "dt" -> "datetime"
 
 RECURSIVE ExpV(_, _, _), ExpEntries(_, _, _), ExpElems(_, _, _)
+\* every node that is a Value (scalar, static array, inline table) is first handed to visit_value
 ExpV(v, path, inval) ==
-  CASE v.k = "t" -> <<Call(IF inval THEN "inline_table" ELSE "table", path)>> \o ExpEntries(v.v, path, inval)
-    [] v.k = "a" -> IF inval THEN <<Call("array", path)>> \o ExpElems(v.v, path, TRUE)
-                    ELSE <<Call("aot", path)>> \o ExpElems(v.v, path, FALSE)
-    [] OTHER -> <<Call(ScalarKind(v), path)>>
+  (IF inval THEN <<Call("value", path)>> ELSE <<>>) \o
+  (CASE v.k = "t" -> <<Call(IF inval THEN "inline_table" ELSE "table", path)>> \o ExpEntries(v.v, path, inval)
+     [] v.k = "a" -> IF inval THEN <<Call("array", path)>> \o ExpElems(v.v, path, TRUE)
+                     ELSE <<Call("aot", path)>> \o ExpElems(v.v, path, FALSE)
+     [] OTHER -> <<Call(ScalarKind(v), path)>>)
 ExpEntries(es, path, inval) ==
   IF es = <<>> THEN <<>>
   ELSE LET e == Head(es) p == Append(path, e.key) IN
@@ -35,6 +37,18 @@ RECURSIVE HasPromoted(_), HasPromotedSeq(_), HasPromotedEntries(_)
 HasPromoted(v) == CASE v.k = "t" -> HasPromotedEntries(v.v) [] v.k = "a" -> HasPromotedSeq(v.v) [] OTHER -> FALSE
 HasPromotedSeq(vs) == IF vs = <<>> THEN FALSE ELSE HasPromoted(Head(vs)) \/ HasPromotedSeq(Tail(vs))
 HasPromotedEntries(es) == IF es = <<>> THEN FALSE ELSE Head(es).prom \/ HasPromoted(Head(es).val) \/ HasPromotedEntries(Tail(es))
+
+\* paths of the promoted super-tables (their position among siblings is free)
+RECURSIVE PromPaths(_, _), PromPathsSeq(_, _), PromPathsEntries(_, _)
+PromPaths(v, path) == CASE v.k = "t" -> PromPathsEntries(v.v, path) [] v.k = "a" -> PromPathsSeq(v.v, path) [] OTHER -> {}
+PromPathsSeq(vs, path) == IF vs = <<>> THEN {} ELSE PromPaths(Head(vs), path) \cup PromPathsSeq(Tail(vs), path)
+PromPathsEntries(es, path) ==
+  IF es = <<>> THEN {}
+  ELSE LET p == Append(path, Head(es).key) IN
+       (IF Head(es).prom THEN {p} ELSE {}) \cup PromPaths(Head(es).val, p) \cup PromPathsEntries(Tail(es), path)
+UnderAny(path, ps) == \E q \in ps : Len(q) <= Len(path) /\ SubSeq(path, 1, Len(q)) = q
+\* the calls outside the promoted subtrees, in order
+Outside(calls, ps) == SelectSeq(calls, LAMBDA c : ~UnderAny(c.path, ps))
 
 \* same calls, any order (used when the iteration position of a promoted super-table is free, DESIGN.md 3.5)
 SameBag(a, b) == /\ Len(a) = Len(b)
